@@ -10,6 +10,7 @@
 //! 2 = harness error.
 
 mod c19;
+mod c20;
 mod evidence;
 mod exec;
 mod gen;
@@ -99,6 +100,9 @@ fn main() {
             if args[2] == "C19" {
                 exit(c19::check(&args[3]));
             }
+            if args[2] == "C20" {
+                exit(c20::check(&args[3]));
+            }
             exit(runner::check(&args[2], &args[3]));
         }
         "c19worker" => {
@@ -121,6 +125,9 @@ fn main() {
             }
             if args[2].contains("/C19-") || args[2].contains("/C19_") {
                 exit(c19::replay(&args[2]));
+            }
+            if args[2].contains("/C20-") || args[2].contains("/C20_") {
+                exit(c20::replay(&args[2]));
             }
             exit(runner::replay(&args[2]));
         }
